@@ -1,11 +1,15 @@
 package route
 
 import (
+	"bufio"
 	"context"
 	"encoding/json"
 	"fmt"
+	"github.com/gobwas/ws"
 	"google.golang.org/grpc"
+	"io"
 	"math/rand"
+	"net"
 	"net/http"
 	"sort"
 	"strings"
@@ -652,9 +656,63 @@ func healthzVariant(r *mon.Run, rng *rand.Rand, vi int) {
 		}
 	}
 	r.Distinct("healthz:websocket-watch:" + hv.name)
+	// the same upgrade with the Connection header spelled as other legal
+	// clients and intermediaries do (it is a token list)
+	for _, connHdr := range []string{"Upgrade", "upgrade", "keep-alive, Upgrade", "Upgrade, keep-alive", "keep-alive,upgrade"} {
+		status, first, err := rawWSHandshake(srv.Addr, "/v1/healthz?service=ws.svc", connHdr)
+		r.Eval(1)
+		if err != nil {
+			r.Inconclusive("healthz raw websocket handshake: " + err.Error())
+			continue
+		}
+		if status != 101 {
+			r.Violate("healthz:websocket-upgrade-refused:connection-token-list", fmt.Sprintf("config %s: a WebSocket handshake with `Connection: %s` was answered %d %.80q instead of 101", hv.name, connHdr, status, first), map[string]any{"connection": connHdr, "config": hv.name})
+			break
+		}
+		var body struct {
+			Status string `json:"status"`
+		}
+		json.Unmarshal([]byte(first), &body)
+		if body.Status != "SERVING" {
+			r.Violate("healthz:websocket-wrong-status:connection-token-list", fmt.Sprintf("config %s: `Connection: %s`: first update %q, want SERVING", hv.name, connHdr, first), map[string]any{"connection": connHdr, "config": hv.name})
+			break
+		}
+		r.Distinct("healthz:websocket-handshake:" + connHdr)
+	}
 	if l := srv.ErrLog(); strings.Contains(l, "panic") {
 		r.Violate("healthz:panic-serving", l, nil)
 	}
+}
+
+// rawWSHandshake performs a WebSocket opening handshake by hand (so that the
+// Connection header can be spelled freely) and returns the HTTP status and
+// either the first text frame (101) or the start of the body.
+func rawWSHandshake(addr, target, connHdr string) (int, string, error) {
+	conn, err := net.DialTimeout("tcp", addr, 5*time.Second)
+	if err != nil {
+		return 0, "", err
+	}
+	defer conn.Close()
+	conn.SetDeadline(time.Now().Add(15 * time.Second))
+	fmt.Fprintf(conn, "GET %s HTTP/1.1\r\nHost: verif.test\r\nUpgrade: websocket\r\nConnection: %s\r\nSec-WebSocket-Key: dGhlIHNhbXBsZSBub25jZQ==\r\nSec-WebSocket-Version: 13\r\n\r\n", target, connHdr)
+	br := bufio.NewReader(conn)
+	resp, err := http.ReadResponse(br, &http.Request{Method: "GET"})
+	if err != nil {
+		return 0, "", err
+	}
+	if resp.StatusCode != 101 {
+		b, _ := io.ReadAll(io.LimitReader(resp.Body, 200))
+		return resp.StatusCode, string(b), nil
+	}
+	msg, err := wsutil.ReadServerText(struct {
+		io.Reader
+		io.Writer
+	}{br, conn})
+	if err != nil {
+		return 101, "", err
+	}
+	wsutil.WriteClientMessage(conn, ws.OpClose, ws.NewCloseFrameBody(ws.StatusNormalClosure, ""))
+	return 101, string(msg), nil
 }
 
 func urlQueryEscape(s string) string {
